@@ -329,6 +329,23 @@ def handleTrans (args : List String) : Option String :=
       let c := parseConstraint (str con)
       some (showOB (Generated.Trans.conflictingVersion c pa) ++ "\t" ++ showOB (conflictingVersion c pa) ++ "\tunlisted")
     | none => some "bad-pkg\tbad-pkg\tunlisted"
+  | "t.fp" :: version :: dep :: allowPin :: preferPin :: inst :: dqF :: pkgsF =>
+    -- filterPackages: candidates as further fields, `dqF` the disqualified positions, `inst` a package or empty
+    let rec readAll : Nat → List String → Option (List Pkg)
+      | _, [] => some []
+      | i, f :: fs => match readPkg i f, readAll (i + 1) fs with
+        | some p, some ps => some (p :: ps)
+        | _, _ => none
+    match readAll 0 pkgsF with
+    | none => some "bad-pkg\tbad-pkg\tunlisted"
+    | some pkgs =>
+      let dq := if dqF.isEmpty then [] else (dqF.splitOn ",").map String.toNat!
+      let installed : Option Pkg := if inst.isEmpty then none else readPkg 999999 inst
+      let d : Dep := match dep.toNat! with
+        | 1 => .eq | 2 => .gt | 3 => .lt | 4 => .ge | 5 => .le | 6 => .tilde | _ => .any
+      let show_ (l : List Pkg) : String := ",".intercalate (l.map fun p => toString p.id)
+      some (show_ (Generated.Trans.filterPackages pkgs dq ⟨str allowPin, str preferPin, str version, installed, d⟩) ++ "\t" ++
+        show_ (filterPackages pkgs dq (str version) d (str allowPin) (str preferPin) installed) ++ "\tunlisted")
   | _ => none
 
 def handle (args : List String) : Option String :=
